@@ -157,6 +157,46 @@ def itemWf (T : Table) (it : Item) : Bool :=
 def inDomain (T : Table) (files : List File) (argv : List Occ) : Bool :=
   argv.all (occWf T) && (flat files).all (itemWf T)
 
+/-! ### histories: layers applied one after the other, assignments, read-backs in between -/
+
+/-- value after one more batch of file lines, starting from the current value -/
+def denFilesFrom (ty : Ty) (cur : Val) (ms : List Mention) : Option Val :=
+  match ty, cur with
+  | .atom t, d =>
+    match ms.getLast? with
+    | none => some d
+    | some m => (specAtom t (mentionStr m)).map .atom
+  | .list, .list xs => some (.list (xs ++ (ms.map fun m => shlexSplit (mentionStr m)).flatten))
+  | .dict t _, .dict kvs => .dict <$> ms.foldlM (dictMention t) kvs
+  | _, _ => none
+
+/-- a value has the shape of its option class (the domain of assignments) -/
+def shaped : Ty → Val → Bool
+  | .atom _, .atom _ => true
+  | .list, .list _ => true
+  | .dict _ _, .dict _ => true
+  | _, _ => false
+
+/-- what one step of a history does to option `i`: a file and a command line act as in `den`, on the current value;
+    an assignment replaces the value of the addressed option; an observation changes nothing -/
+def denStep (T : Table) (i : Nat) (o : Opt) (cur : Val) : Step → Option Val
+  | .read f => denFilesFrom o.ty cur (mentions T i o [f])
+  | .cli argv => denCli o cur (cliOccs o argv)
+  | .assign sec key v => if o.sec = sec && o.key = key then (if shaped o.ty v then some v else none) else some cur
+  | .observe => some cur
+
+/-- the value of option `i` after a history, from its default -/
+def denHist (T : Table) (steps : List Step) (i : Nat) : Option Val :=
+  match T[i]? with
+  | none => none
+  | some o => steps.foldlM (denStep T i o) o.dflt
+
+def stepWf (T : Table) : Step → Bool
+  | .read f => (flat [f]).all (itemWf T)
+  | .cli argv => argv.all (occWf T)
+  | .assign sec key _ => keyKnown T sec key
+  | .observe => true
+
 /-! ### reading back -/
 
 /-- format strings of the property: literal text without `%`, `%%`, `%(name)s` -/
